@@ -307,28 +307,38 @@ fn iter_class(u: &Universe, m: &Map, prefix: Option<&[u8]>, start: Option<&[u8]>
     }
 }
 
+/// Iteration code family of a backend name: the history-keeping store iterates through `RocksDb`.
+fn family(who: &str) -> &'static str {
+    if who.starts_with("MemoryStore") {
+        "memory"
+    } else {
+        "rocksdb"
+    }
+}
+
 fn show_map(m: &Map) -> String {
     show_entries(&m.iter().map(|(k, v)| (k.clone(), v.clone())).collect::<Vec<_>>())
 }
 
 /// Point reads and full scans of one column against the model (cheap contents check).
 fn check_contents(u: &Universe, m: &Map, kv: &dyn IterableStore<Column = Column>, who: &str) -> Result<(), Violation> {
+    let fam = family(who);
     for k in &u.keys {
         let got = kv.get(k, u.col).map_err(|e| viol("get-error", format!("{who}: get({}) failed: {e}", short(k))))?.map(|v| v.to_vec());
         let want = m.get(k).cloned();
         if got != want {
-            return Err(viol("get-mismatch", format!("{who}: get({}) = {:?}, model has {:?}", short(k), got.map(|v| hex(&v)), want.map(|v| hex(&v)))));
+            return Err(viol(format!("get-mismatch:{fam}"), format!("{who}: get({}) = {:?}, model has {:?}", short(k), got.map(|v| hex(&v)), want.map(|v| hex(&v)))));
         }
         let ex = kv.exists(k, u.col).map_err(|e| viol("get-error", format!("{who}: exists failed: {e}")))?;
         if ex != m.contains_key(k) {
-            return Err(viol("exists-mismatch", format!("{who}: exists({}) = {ex}, model says {}", short(k), m.contains_key(k))));
+            return Err(viol(format!("exists-mismatch:{fam}"), format!("{who}: exists({}) = {ex}, model says {}", short(k), m.contains_key(k))));
         }
     }
     for dir in [IterDirection::Forward, IterDirection::Reverse] {
         let want = model_iter(m, None, None, dir).expect("defined");
         let got = real_iter(kv, u.col, None, None, dir).map_err(|e| viol("iter-error", format!("{who}: iter_store failed: {e}")))?;
         if got != want {
-            return Err(viol("scan-mismatch", format!("{who}: full {} scan of {} returned {} but the model holds {}", dir_name(dir), u.col.name(), show_entries(&got), show_entries(&want))));
+            return Err(viol(format!("scan-mismatch:{fam}"), format!("{who}: full {} scan of {} returned {} but the model holds {}", dir_name(dir), u.col.name(), show_entries(&got), show_entries(&want))));
         }
     }
     Ok(())
@@ -337,6 +347,7 @@ fn check_contents(u: &Universe, m: &Map, kv: &dyn IterableStore<Column = Column>
 /// Compare every query of the universe on one backend with the model. Returns
 /// one witness per distinct mismatch class (empty = everything agrees).
 fn check_queries(u: &Universe, m: &Map, kv: &dyn IterableStore<Column = Column>, who: &str, mut on_query: impl FnMut()) -> Vec<Violation> {
+    let fam = family(who);
     let mut out: Vec<Violation> = vec![];
     let mut push = |v: Violation| {
         if !out.iter().any(|o| o.sig == v.sig) {
@@ -358,7 +369,7 @@ fn check_queries(u: &Universe, m: &Map, kv: &dyn IterableStore<Column = Column>,
                     Ok(got) => {
                         if *got != want {
                             push(viol(
-                                format!("iter-mismatch:{}", iter_class(u, m, p, s, dir)),
+                                format!("iter-mismatch:{fam}:{}", iter_class(u, m, p, s, dir)),
                                 format!(
                                     "{who}: iter_store({}, prefix={}, start={}, {}) returned {} but the sorted-map model gives {} (column contents {})",
                                     u.col.name(),
@@ -381,7 +392,7 @@ fn check_queries(u: &Universe, m: &Map, kv: &dyn IterableStore<Column = Column>,
                         // (the key iterator shares the seek logic: reported only when the entry iterator was right)
                         if gotk != wantk && entries_agree {
                             push(viol(
-                                format!("iter-keys-mismatch:{}", iter_class(u, m, p, s, dir)),
+                                format!("iter-keys-mismatch:{fam}:{}", iter_class(u, m, p, s, dir)),
                                 format!(
                                     "{who}: iter_store_keys({}, prefix={}, start={}, {}) returned [{}] but the model gives [{}] (column contents {})",
                                     u.col.name(),
@@ -599,9 +610,6 @@ impl Subject for HistSubject {
     fn label(&self, op: &Op11) -> String {
         self.shape(op).to_string()
     }
-    fn required_labels(&self) -> Vec<String> {
-        ["empty", "single_set", "list_conflicting", "list_sets_share_column", "list_disjoint_columns"].iter().map(|s| s.to_string()).collect()
-    }
     fn interesting(&self, _op: &Op11, obs: &str) -> bool {
         !obs.starts_with("unchanged")
     }
@@ -688,10 +696,15 @@ fn restore_op(code: u8) -> Op11 {
 }
 
 /// Sigs already re-checked on a fresh store (one confirmation per backend and class is enough).
-static CONFIRMED: std::sync::Mutex<BTreeSet<String>> = std::sync::Mutex::new(BTreeSet::new());
+static CONFIRMED: std::sync::Mutex<BTreeMap<String, bool>> = std::sync::Mutex::new(BTreeMap::new());
 
-fn first_time(key: String) -> bool {
-    CONFIRMED.lock().unwrap().insert(key)
+/// Does the class reproduce on fresh stores? Decided by re-executing its first witness.
+fn reproduces_fresh(key: String, check: impl FnOnce() -> bool) -> bool {
+    if let Some(r) = CONFIRMED.lock().unwrap().get(&key) {
+        return *r;
+    }
+    let r = check();
+    *CONFIRMED.lock().unwrap().entry(key).or_insert(r)
 }
 
 /// Replay `restore(code); op` on a fresh store; the violation of the second step, if any.
@@ -720,13 +733,12 @@ fn long_case(kind: Kind, code: u8, sw: &mut Sweep) {
             Ok(_) => sw.case(nontrivial(i), shape, input, Ok(())),
             Err(v) => {
                 let mut v = v;
-                if first_time(format!("{}|{}", kind.name(), v.sig)) {
-                    match fresh_pair(&subj, code, op) {
-                        Some(f) if f.sig == v.sig => {}
-                        other => {
-                            v = viol(format!("{}:only-on-a-long-lived-store", v.sig), format!("{} (on a fresh store the same two commits give: {:?}; this store had seen {} commits)", v.msg, other.map(|o| o.sig), 2 * i + 1));
-                        }
-                    }
+                let mut fresh_sig = None;
+                if !reproduces_fresh(format!("{}|{}", kind.name(), v.sig), || {
+                    fresh_sig = fresh_pair(&subj, code, op).map(|f| f.sig);
+                    fresh_sig.as_deref() == Some(v.sig.as_str())
+                }) {
+                    v = viol(format!("{}:only-on-a-long-lived-store", v.sig), format!("{} (the first witness of this class did not reproduce with the same two commits on a fresh store: {:?}; this store had seen {} commits)", v.msg, fresh_sig, 2 * i + 1));
                 }
                 sw.case(nontrivial(i), shape, input, Err(v));
             }
@@ -882,8 +894,8 @@ fn sweep_chunk(u: &Universe, chunk: &[Vec<usize>], sw: &mut Sweep) {
                 sw.evaluations = sw.evaluations.saturating_sub(1);
             }
             let mut v = v;
-            if first_time(format!("{}|{}", u.name, v.sig)) && !sweep_fresh(u, subset).iter().any(|f| f.sig == v.sig) {
-                v = viol(format!("{}:only-on-a-long-lived-store", v.sig), format!("{} (not reproduced by committing the key set to fresh stores; these stores had seen {} commits)", v.msg, st.next_height - 1));
+            if !reproduces_fresh(format!("{}|{}", u.name, v.sig), || sweep_fresh(u, subset).iter().any(|f| f.sig == v.sig)) {
+                v = viol(format!("{}:only-on-a-long-lived-store", v.sig), format!("{} (the first witness of this class did not reproduce by committing the key set to fresh stores; these stores had seen {} commits)", v.msg, st.next_height - 1));
             }
             sw.case(nontrivial, "a query differs", input, Err(v));
         }
@@ -949,8 +961,9 @@ pub fn run(cli: &Cli) {
     let mut quiet = vec![];
     let depth_of = |s: &HistSubject| if s.kind == Kind::Memory { cli.tier.pick(2, 3) } else { cli.tier.pick(1, 2) };
     let max_depth = subjects.iter().map(depth_of).max().unwrap_or(0);
-    let reports = crate::util::explore_parallel(&subjects, |s| Bounds::new(depth_of(s), cli).wall(cli.tier.pick(50, 1200)), cli.threads);
+    let reports = crate::util::explore_parallel(&subjects, |s| Bounds::new(depth_of(s), cli).wall(cli.tier.pick(110, 1200)), cli.threads);
     for r in reports {
+        crate::util::require_labels(&r, &["empty", "single_set", "list_conflicting", "list_sets_share_column", "list_disjoint_columns"]);
         if !r.violations.is_empty() || !r.exhaustive {
             run.add(r);
         } else {
